@@ -119,6 +119,10 @@ impl SyntaxPattern {
                                     for (var, multi_match) in multi_matches_substitutions {
                                         substitutions.get_mut(&var).unwrap().1.push(multi_match.0);
                                     }
+                                } else {
+                                    // a form that the repeated sub-pattern does not match
+                                    // rejects the rule instead of being dropped
+                                    return Ok(false);
                                 }
                                 if Self::match_datum_stream(
                                     pattern_index,
